@@ -232,3 +232,296 @@ def run_interval(prop, tier, seed, ctx):
                                "expiries, disposals at top level and from inside the data handler, up to the tier's length for <= 2 (3) subscriptions, "
                                "+ seeded random scripts up to 40 events, 4 subscriptions; non-trivial = >= 2 subscriptions or a disposal followed by later events")
     return res
+
+
+# ------------------------------------------------------------------------------------------------ pipelines (C06)
+def gen_pipe(rnd, depth, allow_inf=False):
+    """random pipeline description (see harness/src/pipe.rs); `allow_inf`: this position is under a take, unbounded sources allowed"""
+    def source():
+        r = rnd.random()
+        if allow_inf and r < 0.3:
+            return f"(inf {rnd.randint(1, 20)})"
+        if r < 0.45:
+            return f"(src {rnd.choice([0, 0, 1, 2, 3, 5, 8, 13])})"
+        return f"(src {rnd.randint(0, 9)} {rnd.randint(-5, 30)})"
+    p = source() if depth == 0 or rnd.random() < 0.15 else None
+    if p is None:
+        kind = rnd.choice(["chain", "chain", "chain", "concat", "flatmap"])
+        if kind == "concat":
+            p = f"(concat {gen_pipe(rnd, depth - 1)} {gen_pipe(rnd, depth - 1)})"
+        elif kind == "flatmap":
+            fam = rnd.choice(['rep', 'tri'])       # `tri K` uses take(K): K >= 1 (take(0) is outside the property: n >= 1)
+            p = f"(flatmap {fam} {rnd.randint(0 if fam == 'rep' else 1, 3)} {gen_pipe(rnd, depth - 1)})"
+        else:
+            p = gen_pipe(rnd, depth - 1, allow_inf)
+    elif depth > 0 and allow_inf and rnd.random() < 0.5:
+        p = gen_pipe(rnd, depth - 1, True)
+    inf_inside = "(inf" in p
+    for _ in range(rnd.randint(0, 3)):
+        st = rnd.choice(["map", "filter", "scan", "take", "skip"])
+        if inf_inside and st == "filter":
+            st = "map"          # a filter rejecting everything over an unbounded source never answers: outside the property
+        if st == "map":
+            p = f"(map {rnd.choice(['add', 'mul'])} {rnd.randint(-3, 4)} {p})"
+        elif st == "filter":
+            m = rnd.choice([1, 2, 3, 5]); p = f"(filter mod {m} {rnd.randrange(m)} {p})"
+        elif st == "scan":
+            p = f"(scan lin {rnd.choice([1, 2, 3])} {rnd.randint(0, 5)} {p})"
+        elif st == "take":
+            p = f"(take {rnd.randint(1, 6)} {p})"; inf_inside = False
+        else:
+            p = f"(skip {rnd.randint(0, 4)} {p})"
+    if inf_inside:
+        p = f"(take {rnd.randint(1, 6)} {p})"
+    return p
+
+
+def run_pipelines(prop, tier, seed, ctx):
+    import random
+    rnd = random.Random(seed)
+    hb = ctx["harness_bin"]("default")
+    N = 3000 if tier == "quick" else 150000
+    progs = set()
+    fixed = ["(src 0)", "(src 3)", "(take 2 (inf 7))", "(take 3 (filter mod 2 0 (src 4)))", "(filter mod 2 1 (src 6 2))",
+             "(concat (src 2) (concat (src 0) (src 3)))", "(flatmap rep 2 (src 3))", "(take 4 (flatmap tri 2 (src 9)))",
+             "(skip 2 (scan lin 2 1 (map mul 3 (src 6))))", "(take 2 (concat (take 1 (inf 3)) (src 4)))",
+             "(flatmap rep 0 (src 4))", "(take 3 (flatmap rep 2 (take 5 (inf 1))))"]
+    progs.update(fixed)
+    while len(progs) < N:
+        progs.add(gen_pipe(rnd, rnd.randint(0, 3 if tier == "quick" else 4), rnd.random() < 0.35))
+    progs = sorted(progs)
+    n = 16
+    shards = [progs[i::n] for i in range(n)]
+    def run(ls):
+        p = subprocess.run([hb, "pipelines"], input="\n".join(ls) + "\n", capture_output=True, text=True, timeout=3500)
+        q = subprocess.run([ctx["CBDRV"], "pipe"], input=p.stdout, capture_output=True, text=True, timeout=3500)
+        return p.stdout, q.stdout
+    with ThreadPoolExecutor(max_workers=n) as ex:
+        outs = list(ex.map(run, shards))
+    res = dict(coverage=dict(evaluations=len(progs), distinct_nontrivial=0, samples=[]), known=[], violations=[], mismatches=[])
+    res["coverage"]["distinct_nontrivial"] = sum(1 for p in progs if p.count("(") >= 3)
+    res["coverage"]["nested_programs"] = sum(1 for p in progs if "concat" in p or "flatmap" in p)
+    res["coverage"]["unbounded_inputs"] = sum(1 for p in progs if "(inf" in p)
+    for rec, judged in outs:
+        for l in judged.splitlines():
+            if l.startswith("FLAG "):
+                parts = [x.strip() for x in l[5:].split("|")]
+                if any(c.startswith("MODEL:") for c in parts[-1].split()):
+                    res["mismatches"].append(l[5:])
+                else:
+                    res["violations"].append(dict(kind="impl-vs-oracle", instance=parts[0], program=parts[1] if len(parts) > 1 else "",
+                                                  recorded=parts[2] if len(parts) > 2 else "", verdict=parts[-1],
+                                                  replay_cmd=f"echo '{parts[1] if len(parts) > 1 else ''}' | harness/target-default/debug/cbharness pipelines"))
+            elif l.startswith("BADLINE"):
+                res["mismatches"].append(l)
+    res["coverage"]["samples"] = [dict(run=l) for l in outs[0][0].splitlines()[1:3]]
+    res["coverage"]["rule"] = ("random pull pipelines (seeded): nesting depth <= 3 (4), up to 3 unary stages per level, concat! and map-then-flatten, inputs empty / "
+                               "short / long / unbounded under a take; each runs on the real crate twice (for_each-like probe; real for_each) with counting "
+                               "iterators; compared with the list function and the demand-driven model `sem` (outputs, completion, iterator advances); "
+                               "non-trivial = at least 3 constructors")
+    return res
+
+
+# ------------------------------------------------------------------------------------------------ tracing (C20)
+def macro_shape():
+    """structural extraction (informational): each arm of `call!` mentions `$message` once as an expression to evaluate; the
+    not(tracing) arms of `instrument!` / `trace!` expand to nothing"""
+    import re
+    out = {}
+    try:
+        src = open("/repo/src/utils/mod.rs").read()
+        arms = re.findall(r"if #\[cfg\(feature = \"tracing\"\)\] \{(.*?)\} else \{(.*?)\}\s*\}", src, re.S)
+        out["call_arms"] = len(arms)
+        out["message_evaluated_once_tracing_arm"] = all(a.count("$message") == 1 for a, _ in arms)
+        out["message_evaluated_once_plain_arm"] = all(b.count("$message") == 1 for _, b in arms)
+        tsrc = open("/repo/src/utils/tracing.rs").read()
+        out["tracing_rs_has_else_arm"] = "} else {" in tsrc
+    except Exception as e:
+        out["error"] = str(e)
+    return out
+
+
+def run_tracing(prop, tier, seed, ctx):
+    import importlib.machinery, importlib.util
+    # reuse the script generator of the main check
+    loader = importlib.machinery.SourceFileLoader("chk", os.path.join(os.path.dirname(os.path.dirname(os.path.abspath(__file__))), "check"))
+    spec = importlib.util.spec_from_loader("chk", loader)
+    chk = importlib.util.module_from_spec(spec)
+    loader.exec_module(chk)
+    lines = chk.gen_scripts(prop, tier, seed)
+    n = 16
+    shards = [lines[i::n] for i in range(n)]
+    variants = [("default", []), ("tracing", []), ("tracing", ["--subscriber"])]
+    def run(args):
+        cfgname, extra_args, ls = args
+        if not ls:
+            return ""
+        p = subprocess.run([ctx["harness_bin"](cfgname), "replay", "--calls"] + extra_args, input="\n".join(ls) + "\n",
+                           capture_output=True, text=True, timeout=3500)
+        return p.stdout
+    recs = []
+    for (cfgname, extra_args) in variants:
+        with ThreadPoolExecutor(max_workers=n) as ex:
+            recs.append([l for o in ex.map(run, [(cfgname, extra_args, sh) for sh in shards]) for l in o.splitlines()])
+    res = dict(coverage=dict(evaluations=3 * len(lines), distinct_nontrivial=len(lines), samples=[], macro_shape=macro_shape()),
+               known=[], violations=[], mismatches=[])
+    names = ["default", "tracing", "tracing+subscriber"]
+    for i in (1, 2):
+        if len(recs[i]) != len(recs[0]):
+            res["violations"].append(dict(kind="impl-vs-impl", what=f"{names[i]} produced {len(recs[i])} recordings, default {len(recs[0])}"))
+            continue
+        for a, b in zip(recs[0], recs[i]):
+            if a != b:
+                parts = [x.strip() for x in a.split("|")]
+                res["violations"].append(dict(kind="impl-vs-impl", instance=parts[0], script=parts[1], recorded_default=parts[2],
+                                              recorded_other=b.split("|")[-1].strip(), other_build=names[i],
+                                              verdict="the tracing build changes what peers observe (or how often a message expression is evaluated)"))
+                break
+    if recs[0]:
+        res["coverage"]["samples"] = [dict(default=recs[0][0], tracing_with_subscriber=recs[2][0] if recs[2] else None)]
+    res["coverage"]["rule"] = ("every sequential script of this run replayed on three builds (default; `tracing` without and with a subscriber installed), "
+                               "recordings compared event for event, including the number of invocations of map's closure (`#f=`), which sits inside a "
+                               "message expression of call!; distinct_nontrivial = distinct scripts")
+    return res
+
+
+# ------------------------------------------------------------------------------------------------ two overlapping subscriptions (C13)
+DUAL_INSTS = [("map:add:1", 5, 7), ("filter:mod:2:0", 5, 7), ("scan:lin:2:0", 6, 8), ("skip:1", 6, 8), ("take:1", 6, 8), ("take:2", 6, 8),
+              ("merge:2", 6, 7), ("concat:2", 6, 8), ("combine:2", 6, 7), ("fromiter:2", 6, 8), ("fromiter:inf", 5, 7), ("foreach", 5, 7)]
+
+
+def _depths(script, trace):
+    """environment-frame depth after each move of a solo script, from its model trace"""
+    toks = trace.split()
+    out, d, started = [], 0, False
+    for t in toks:
+        if t.startswith(">"):
+            d += 1
+        elif t == "<" or t.startswith("!") or t.startswith("?"):
+            pass
+        else:
+            if started:
+                out.append(d)
+            started = True
+            if t == "R":
+                d -= 1
+    if started:
+        out.append(d)
+    return out
+
+
+def _rename(tok, to_b):
+    import re
+    m = re.match(r"^(>?)([SUGD])(\d+)(.*)$", tok)
+    if not m:
+        return tok
+    pre, kind, idx, rest = m.group(1), m.group(2), int(m.group(3)), m.group(4)
+    sink_kind = (kind in "SU" and pre == "") or (kind in "GD" and pre == ">")
+    if to_b:
+        idx = idx + 1 if sink_kind else idx + 100
+    else:
+        idx = idx - 1 if sink_kind else idx - 100
+    return f"{pre}{kind}{idx}{rest}"
+
+
+def _interleave(rnd, a, da, b, db):
+    """random interleaving of two solo scripts: a `R` of one side is possible only when that side owns the innermost open frame"""
+    ia = ib = 0
+    owners, out = [], []
+    cur = {0: 0, 1: 0}
+    while ia < len(a) or ib < len(b):
+        cands = []
+        for side, (s, i) in ((0, (a, ia)), (1, (b, ib))):
+            if i < len(s):
+                if s[i] != "R" or (owners and owners[-1] == side):
+                    cands.append(side)
+        if not cands:
+            return None
+        side = rnd.choice(cands)
+        s, i, d = (a, ia, da) if side == 0 else (b, ib, db)
+        tok, new = s[i], d[i]
+        if tok == "R":
+            if new < cur[side]:
+                owners.pop()
+        else:
+            if new > cur[side]:
+                owners.append(side)
+        cur[side] = new
+        out.append(tok if side == 0 else _rename(tok, True))
+        if side == 0:
+            ia += 1
+        else:
+            ib += 1
+    return out
+
+
+def run_dual(prop, tier, seed, ctx):
+    import random
+    rnd = random.Random(seed)
+    hb = ctx["harness_bin"]("default")
+    res = dict(coverage=dict(evaluations=0, distinct_nontrivial=0, samples=[], instances=[]), known=[], violations=[], mismatches=[])
+    per_inst = 400 if tier == "quick" else 20000
+    jobs = []
+    for inst, dq, dt in DUAL_INSTS:
+        p = subprocess.run([ctx["CBDRV"], "gen", inst, str(dq if tier == "quick" else dt)], capture_output=True, text=True, timeout=3500)
+        solos = []
+        for l in p.stdout.splitlines():
+            parts = [x.strip() for x in l.split("|")]
+            if len(parts) == 3 and "!" not in parts[2] and "?" not in parts[2]:
+                solos.append((parts[1].split(), parts[2]))
+        if not solos:
+            continue
+        duals = {}
+        tries = 0
+        while len(duals) < per_inst and tries < per_inst * 5:
+            tries += 1
+            (a, ta), (b, tb) = rnd.choice(solos), rnd.choice(solos)
+            il = _interleave(rnd, a, _depths(a, ta), b, _depths(b, tb))
+            if il:
+                duals[" ".join(il)] = (" ".join(a), ta, " ".join(b), tb)
+        jobs.append((inst, duals))
+    def run(job):
+        inst, duals = job
+        keys = list(duals)
+        p = subprocess.run([hb, "replay", "--dual"], input="\n".join(f"{inst} | {k}" for k in keys) + "\n", capture_output=True, text=True, timeout=3500)
+        # solo runs on the real crate (the reference each projection is compared with)
+        solo_scripts = sorted({v[0] for v in duals.values()} | {v[2] for v in duals.values()})
+        q = subprocess.run([hb, "replay"], input="\n".join(f"{inst} | {k}" for k in solo_scripts) + "\n", capture_output=True, text=True, timeout=3500)
+        solo = {}
+        for l in q.stdout.splitlines():
+            parts = [x.strip() for x in l.split("|")]
+            if len(parts) == 3:
+                solo[parts[1]] = parts[2]
+        bad, nontriv = [], 0
+        for l in p.stdout.splitlines():
+            parts = [x.strip() for x in l.split("|")]
+            if len(parts) != 3:
+                continue
+            key, rec = parts[1], parts[2].split()
+            sa, ta, sb, tb = duals[key]
+            pa = [t[2:] for t in rec if t.startswith("a:")]
+            pb = [_rename(t[2:], False) for t in rec if t.startswith("b:")]
+            sides = [t[0] for t in rec]
+            if any(sides[i] != sides[i + 1] for i in range(len(sides) - 1)) and "a" in sides and "b" in sides:
+                nontriv += 1
+            for name, proj, script in (("A", pa, sa), ("B", pb, sb)):
+                ref = solo.get(script, "?missing").split()
+                ok = proj[:len(ref)] == ref and all(t.startswith(">") or t == "<" for t in proj[len(ref):])
+                if not ok:
+                    bad.append(dict(kind="impl-vs-impl", instance=inst, script=key, recorded=parts[2], side=name, solo_script=script,
+                                    solo_recorded=" ".join(ref), projection=" ".join(proj),
+                                    verdict="the projection of a two-subscription run differs from the solo run: subscriptions are not independent"))
+                    break
+        return inst, len(keys), nontriv, bad, (p.stdout.splitlines()[:1])
+    with ThreadPoolExecutor(max_workers=16) as ex:
+        for inst, n, nontriv, bad, sample in ex.map(run, jobs):
+            res["coverage"]["evaluations"] += n
+            res["coverage"]["distinct_nontrivial"] += nontriv
+            res["coverage"]["instances"].append(dict(instance=inst, dual_scripts=n, interleaved=nontriv))
+            res["violations"] += bad[:1]
+            if sample and len(res["coverage"]["samples"]) < 2:
+                res["coverage"]["samples"].append(dict(run=sample[0]))
+    res["coverage"]["rule"] = ("two overlapping subscriptions to ONE operator value: random interleavings (nesting allowed: a move of one subscription may be "
+                               "made from inside a handler of the other) of two conformant solo scripts enumerated from the model; each projection of the "
+                               "recorded run must equal the solo run of that script on the real crate; non-trivial = the two subscriptions really alternate")
+    return res
